@@ -4,11 +4,13 @@ package c12
 import (
 	"bytes"
 	"fmt"
+	"io"
 	"sync"
 	"testing"
 	"time"
 
 	"github.com/biogo/hts/bam"
+	"github.com/biogo/hts/bgzf"
 	"github.com/biogo/hts/sam"
 	"pgregory.net/rapid"
 
@@ -151,10 +153,12 @@ type BCase struct {
 	Level   int
 	Records int
 	Delays  []int
+	OwnBGZF bool // bam.NewWriter is handed a *bgzf.Writer made by the caller instead of the sink itself
 }
 
 func drawB(t *rapid.T) BCase {
 	return BCase{
+		OwnBGZF: rapid.Bool().Draw(t, "ownbgzf"),
 		NRefs:   rapid.IntRange(0, 40).Draw(t, "nrefs"),
 		TextLen: rapid.SampledFrom([]int{0, 10, 1000, 65000, 65280, 70000, 140000}).Draw(t, "text"),
 		WC:      rapid.SampledFrom([]int{1, 2, 4, 8}).Draw(t, "wc"),
@@ -196,7 +200,16 @@ func runB(c BCase, rec *h.Rec) {
 	sink := bz.NewRecWriter()
 	sink.Delays = c.Delays
 	var bw *bam.Writer
-	if !h.Call(20*time.Second, func() { bw, err = bam.NewWriterLevel(sink, hd, c.Level, c.WC) }) {
+	var dst io.Writer = sink
+	if c.OwnBGZF {
+		bg, err := bgzf.NewWriterLevel(sink, c.Level, c.WC)
+		if err != nil {
+			rec.Failf("bgzf.NewWriterLevel: %v", err)
+			return
+		}
+		dst = bg
+	}
+	if !h.Call(20*time.Second, func() { bw, err = bam.NewWriterLevel(dst, hd, c.Level, c.WC) }) {
 		rec.Failf("bam.NewWriterLevel did not return")
 		return
 	}
@@ -242,6 +255,39 @@ func runB(c BCase, rec *h.Rec) {
 		rec.Failf("closed BAM stream does not start with the header bytes")
 		return
 	}
+	// Close implies that everything written is with the sink: all records, then the marker
+	closed := sink.Bytes()
+	if !bz.HasMarker(closed) {
+		rec.Failf("after bam.Writer.Close returned nil the sink does not end with the EOF marker (destination is a caller's bgzf.Writer: %v)", c.OwnBGZF)
+		return
+	}
+	br, err := bam.NewReader(bytes.NewReader(closed), 1)
+	if err != nil {
+		rec.Failf("reading the closed stream back: %v", err)
+		return
+	}
+	n := 0
+	for {
+		r, err := br.Read()
+		if err == io.EOF {
+			break
+		}
+		if err != nil {
+			rec.Failf("reading the closed stream back: record %d: %v", n, err)
+			return
+		}
+		if r.Name != fmt.Sprintf("r%d", n) {
+			rec.Failf("record %d of the closed stream is %q", n, r.Name)
+			return
+		}
+		n++
+	}
+	br.Close()
+	if n != c.Records {
+		rec.Failf("after bam.Writer.Close returned nil the sink holds %d of the %d records written (destination is a caller's bgzf.Writer: %v)", n, c.Records, c.OwnBGZF)
+		return
+	}
+	rec.ClassIf(c.OwnBGZF, "destination_is_a_bgzf_writer")
 	rec.ClassIf(len(want) > bz.BlockSize, "header_spans_blocks")
 	rec.NTIf(c.WC > 1 && len(want) > bz.BlockSize)
 }
